@@ -407,7 +407,7 @@ inductive DVal
   | null | int (n : Int) | real (bits : Nat) | text (s : List Nat) | blob (s : List Nat) | time (sec : Int) (nsec : Nat)
   deriving DecidableEq, Repr, Inhabited
 
-inductive StoreErr | outOfRange | notStorable
+inductive StoreErr | outOfRange | notStorable | unmodelled
   deriving DecidableEq, Repr
 
 /-- `driver.DefaultParameterConverter` + go-sqlite3 `bind`: what reaches the table for a bound argument.
@@ -416,15 +416,20 @@ inductive StoreErr | outOfRange | notStorable
 def storeVal : Val → Except StoreErr DVal
   | .bool b => .ok (.int (if b then 1 else 0))
   | .int t n => if t.isUnsigned && n ≥ 9223372036854775808 then .error .outOfRange else .ok (.int n)
-  | .flt _ bits => if isNaN bits then .ok .null else .ok (.real bits)
+  | .flt _ bits => if isNaN bits then .ok .null
+                   else if bits = 9223372036854775808 then .ok (.real 0)   -- SQLite keeps integral REALs as integers: -0.0 comes back as 0.0
+                   else .ok (.real bits)
   | .str s => .ok (.text s)
   | .bytes s => .ok (.blob s)
   | .time s n => .ok (.time s n)
 
 def store : Src → Except StoreErr DVal
   | .nil => .ok .null
+  | .val true (.time _ _) => .error .notStorable      -- a defined struct type over time.Time is not a driver.Value
+  | .val true (.bytes []) => .ok .null                -- statement.go AddVar writes `(NULL)` for an EMPTY slice of a defined type
   | .val _ v => storeVal v
   | .ptr _ _ none => .ok .null
+  | .ptr true _ (some (.time _ _)) => .error .notStorable
   | .ptr _ _ (some v) => storeVal v
   | _ => .error .notStorable
 
@@ -435,15 +440,16 @@ def load (k : FKind) (d : DVal) : Except StoreErr Src :=
   let t := k.base.ty
   match k.base, d with
   | _, .null => .ok (.pp k.named t (some none))
-  | .bool, .int n => if n = 0 then .ok (.pp k.named t (some (some (.bool false))))
+  | .bool, .int n => if k.named then .error .notStorable   -- convertAssign has no reflect.Bool case: a defined bool type cannot be scanned
+                     else if n = 0 then .ok (.pp k.named t (some (some (.bool false))))
                      else if n = 1 then .ok (.pp k.named t (some (some (.bool true)))) else .error .outOfRange
   | .int w, .int n => if -w.half ≤ n ∧ n < w.half then .ok (.pp k.named t (some (some (.int t n)))) else .error .outOfRange
   | .uint w, .int n => if 0 ≤ n ∧ n < w.pow then .ok (.pp k.named t (some (some (.int t n)))) else .error .outOfRange
-  | .float is32, .real b => if is32 && !isF32Exact b then .error .notStorable else .ok (.pp k.named t (some (some (.flt t b))))
+  | .float is32, .real b => if is32 && !isF32Exact b then .error .unmodelled else .ok (.pp k.named t (some (some (.flt t b))))
   | .string, .text s => .ok (.pp k.named t (some (some (.str s))))
   | .bytes, .blob s => .ok (.pp k.named t (some (some (.bytes s))))
   | .time, .time s n => .ok (.pp k.named t (some (some (.time s n))))
-  | _, _ => .error .notStorable
+  | _, _ => .error .unmodelled
 
 /-- Create one value of a single field, read it back into a fresh struct: the composite the round-trip
     theorem is about and the `rt` correspondence op computes -/
@@ -457,21 +463,24 @@ def roundTrip (k : FKind) (fv : FVal) : Except StoreErr R :=
 /-- the values of a kind that the column type can hold (hypothesis of the round-trip theorem and the
     exclusion list of the E2E generator): integers within the field's width, unsigned below 2^63 (database/sql
     rejects larger uint64), floats that are not NaN (SQLite stores NaN as NULL), float32 as exact widenings,
-    times within years 1..9999 (go-sqlite3 writes a text timestamp) -/
+    nor -0.0 (SQLite hands it back as 0.0), times within years 1..9999 (go-sqlite3 writes a text timestamp); defined
+    bool types are excluded altogether (database/sql cannot scan SQLite's integer into them) and so are defined
+    types over time.Time without Valuer (database/sql cannot bind a struct) -/
 def repVal : Base → Val → Bool
   | .bool, .bool _ => true
   | .int w, .int t n => t == sTy w && decide (-w.half ≤ n) && decide (n < w.half)
   | .uint w, .int t n => t == uTy w && decide (0 ≤ n) && decide (n < w.pow) && decide (n < 9223372036854775808)
-  | .float true, .flt t b => t == .f32 && isF32Exact b
-  | .float false, .flt t b => t == .f64 && !isNaN b
+  | .float true, .flt t b => t == .f32 && isF32Exact b && b != 9223372036854775808
+  | .float false, .flt t b => t == .f64 && !isNaN b && b != 9223372036854775808
   | .string, .str _ => true
-  | .bytes, .bytes _ => true
+  | .bytes, .bytes _ => true      -- (an empty non-nil slice of a DEFINED byte-slice type comes back nil: excluded in `representable`)
   | .time, .time s n => decide (zeroTimeSec ≤ s) && decide (s ≤ 253402300799) && decide (n < 1000000000)
   | _, _ => false
 
 def representable (k : FKind) : FVal → Bool
   | none => k.ptr || k.base == .bytes
-  | some v => repVal k.base v
+  | some v => repVal k.base v && !((k.base == .bool || k.base == .time) && k.named) &&
+              !(k.named && !k.ptr && v == .bytes [])
 
 /-! ## (iv) primary-key back-fill (callbacks/create.go `Create`, after the INSERT) -/
 
@@ -549,6 +558,19 @@ def createSlice (returning : Bool) (m : Int) (ks : List Key) : List Key × List 
   let mem := if returning then scanUpdate ks rows
              else createBackfillSlice true true 1 ks ⟨rows.length, lastRowId rows⟩
   (mem, rows, m')
+
+/-- `Create` from a slice of `n` non-nil maps through a model with an auto-increment key, SQLite-like dialector,
+    table maximum `m`.  Result: the key each of the caller's `n` maps carries afterwards and the length of the
+    caller's slice; `none` = Create returns an error.
+    * no RETURNING: create.go:128-147 (`backfillMaps`).
+    * RETURNING, `*[]map[string]interface{}`: scan.go `case *[]map[string]interface{}` APPENDS one new map per
+      returned row to the caller's slice; the caller's own maps are not touched.
+    * RETURNING, `[]map[string]interface{}` by value: scan.go falls into the struct/slice branch and `rows.Scan`
+      into a map element fails (`unsupported Scan … into type *map[string]interface {}`). -/
+def createMaps (returning ptrDest : Bool) (m : Int) (n : Nat) : Option (List (Option Key) × Nat) :=
+  if returning then
+    if ptrDest then some (List.replicate n none, n + n) else (if n = 0 then some ([], 0) else none)
+  else some (backfillMaps true (List.replicate n true) (m + n), n)
 
 /-! ## (v) `CreateInBatches` slicing (finisher_api.go:35-50) -/
 
